@@ -229,7 +229,7 @@ class _Canon(ast.NodeTransformer):
 
 _NP_POSITIONAL = {"linspace": ("start", "stop", "num"), "arange": ("start", "stop", "step"), "clip": ("a", "a_min", "a_max"), "where": ("condition", "x", "y"),
                   "full": ("shape", "fill_value"), "searchsorted": ("a", "v"), "take": ("a", "indices"), "diff": ("a", "n"), "reshape": ("a", "newshape"),
-                  "interp": ("x", "xp", "fp"), "digitize": ("x", "bins"), "hypot": ("x1", "x2"), "arctan2": ("x1", "x2")}
+                  "interp": ("x", "xp", "fp"), "trapz": ("y", "x"), "trapezoid": ("y", "x"), "digitize": ("x", "bins"), "hypot": ("x1", "x2"), "arctan2": ("x1", "x2")}
 
 
 def canon(node):
